@@ -136,6 +136,7 @@ type symtab struct {
 	vecs    map[int][]uint32 // W(t) -> expected float32 bits
 	lenV    int
 	lenT    int
+	sizes   map[int]int // explicit run lengths (boundary refinement)
 	legacy  bool
 	tailHdr bool
 }
@@ -187,16 +188,20 @@ func (st *symtab) run(sym int) []byte {
 			r = append(r, []byte("\r\n\x00$")...)
 		}
 	case sym >= 50 && sym < 60: // plain value
+		lenV := st.lenV
+		if n, ok := st.sizes[sym]; ok {
+			lenV = n
+		}
 		switch st.variant % 4 {
 		case 0:
 			r = []byte(fmt.Sprintf("v%d-", t))
-			for len(r) < st.lenV {
+			for len(r) < lenV {
 				r = append(r, byte('a'+rng.Intn(26)))
 			}
-			r = r[:st.lenV]
+			r = r[:lenV]
 			r[0] = byte('0' + t)
 		default: // arbitrary binary incl. NUL CR LF '$' '*'; may end in CR or LF
-			r = randBytes(rng, st.lenV, nil)
+			r = randBytes(rng, lenV, nil)
 			extra := [][]byte{{0}, []byte("\r\n"), []byte("$-1\r\n"), []byte("*2\r\n"), {0, 0, 0, 0}, []byte("\r"), []byte("\n")}
 			e := extra[rng.Intn(len(extra))]
 			if len(e) < len(r) {
@@ -210,8 +215,12 @@ func (st *symtab) run(sym int) []byte {
 			r = randBytes(rng, 1, nil)
 		}
 	case sym >= 65 && sym < 70: // more bytes of such a value; may look like the rest of a frame header
-		r = randBytes(rng, st.lenT, nil)
-		if st.tailHdr {
+		lenT := st.lenT
+		if n, ok := st.sizes[sym]; ok {
+			lenT = n
+		}
+		r = randBytes(rng, lenT, nil)
+		if st.tailHdr && lenT >= 4 {
 			// what a length field would hold there; the giant ones (a candidate frame makes ReadFrame allocate
 			// that much) are kept rare because zeroing the buffer dominates the run time
 			l := []uint32{3, 100, 4096, 0x00010000, 0x00100000, 0x02000000}[rng.Intn(6)]
@@ -225,7 +234,7 @@ func (st *symtab) run(sym int) []byte {
 				}
 			}
 		}
-		r[st.lenT-1] = byte(1 + sym - 65)
+		r[lenT-1] = byte(1 + sym - 65)
 	case sym >= 80 && sym < 90:
 		r = []byte(fmt.Sprintf("id%d", t))
 	case sym >= 90 && sym < 95: // vector text
@@ -378,6 +387,7 @@ func buildFrame(c ccmd, abs []int) (cframe, error) {
 
 // clog is a concrete log with the byte span of every abstract file symbol.
 type clog struct {
+	st     *symtab
 	frames []cframe
 	starts []int  // byte offset of each frame
 	bytes  []byte // the undamaged file
@@ -387,7 +397,8 @@ type clog struct {
 
 func (r *runner) buildLog(c *caseRec) (*clog, error) {
 	st := newSymtab(c.Seed, c.Variant)
-	l := &clog{}
+	st.sizes = r.sizes
+	l := &clog{st: st}
 	apos := 1
 	for _, ai := range c.Log {
 		a, ok := r.alpha[ai]
